@@ -22,7 +22,7 @@ CATS = {
     "pressure": ["Pa", "psi", "bar"],
 }
 FOREIGN = {"length": "s", "depth": "K", "time": "m", "temperature": "Pa", "pressure": "m"}
-IDS = ["si", "field", "lab", "metric"]
+IDS = ["si", "system 1", "field", "system 2", "lab"]
 LISTENER_NAMES = ["L1", "L2", "L3", "L4"]
 
 # simulator-owned listeners (strong references live here and nowhere else)
@@ -533,7 +533,8 @@ class MgrMonitor(Mon.Monitor):
         sig0 = {"op": _short(op["k"])}
         # ---- acceptance <=> the model's rule
         if must_reject:
-            sim.fired("F1.rejected_call")
+            if not (op.get("f") or "").startswith("F1."):
+                sim.fired("F1.rejected_call")
             if not sim.check(raised, "C17.acceptance", dict(sig0, case="invalid_call_accepted"), step, "%s must be rejected, got %s %r" % (op["k"], out[0], out[1])):
                 return
             # a rejected call changes nothing
@@ -659,7 +660,7 @@ class C17:
             "tier": tier,
             "world": "W-POSC",
             "cats": cats,
-            "ids": IDS[: rng.randint(2, 4)],
+            "ids": IDS[: rng.randint(2, 5)],
             "listeners": LISTENER_NAMES[: rng.randint(1, 4)],
             "n_steps": rng.randint(lo, hi),
             "weights": {
